@@ -15,7 +15,7 @@ func TestMain(m *testing.M) { pk.Main(m) }
 
 func modelCfg() gen.Cfg {
 	c := gen.ModelCfg()
-	for _, g := range []string{"mod-zero", "pow-large", "match-expr", "str-index", "range-display", "range-members", "trigger", "singleton", "lambda", "try-expr", "uncaught-throw", "match-stmt", "assign-elem"} {
+	for _, g := range []string{"mod-zero", "pow-large", "match-expr", "str-index", "range-display", "range-members", "trigger", "singleton", "lambda", "try-expr", "uncaught-throw", "match-stmt", "assign-elem", "exit-pending"} {
 		if pk.GateOpen(g) {
 			c.Off[g] = true
 		}
